@@ -60,7 +60,7 @@ LEVEL_NOTE = ("Trusted base: the abstract machine and the line/alignment oracle 
               "hook and Sym mirror in laythe_vm/src/verif.rs, the worker RPC. The equivalence is checked per start "
               "point with labels as cut points; it is structural equality of symbolic terms, so it can only "
               "report a difference that is a real difference under the machine's semantics.")
-GATES = {"rule-fired": 0.10}
+GATES = {"rule-fired": 0.10, "program": 0.01}
 
 D = ("Drop", 0, 0)
 ALPHABET = (
@@ -326,6 +326,8 @@ def outcome_for(seq, workers):
 
 
 def run_case(case, ctx):
+    if case and isinstance(case[0], tuple) and case[0] and case[0][0] == "prog":
+        return run_program_case(case, ctx)
     variants, seq = expand(case)
     if any(v not in VARIANTS for v in variants):
         return Outcome(discarded="unknown-variant")
@@ -345,8 +347,61 @@ def run_case(case, ctx):
     return o
 
 
-# ------------------------------------------------------------------------------------------- Hypothesis
+# --------------------------------------------------------------- (d) whole programs, one rule disabled
+# dead code removal is not switched off here: the compiler's stack depth simulation (apply_stack_effects) relies
+# on unreachable code having been removed, so that configuration is not one the compiler supports; the rule is
+# covered by the window oracle instead
+PEEPHOLE_RULE_BITS = {"drop": 1, "invoke": 2, "invoke_super": 4, "eliminate_drop": 8, "load_multiple": 16}
+
+
+def run_program_case(case, ctx):
+    """case = [("prog", profile), ast, mask index]: the program's output must not depend on which peephole
+    rules are enabled (hook e: rule-disable bitmask), and must equal the reference evaluator's."""
+    from ..lang import printer
+    from ..oracle import same_behaviour, crash_failure
+    _, profile = case[0]
+    prog = case[1]
+    names = sorted(PEEPHOLE_RULE_BITS)
+    rule = names[case[2] % len(names)]
+    try:
+        src, _ = printer.to_source(prog)
+    except ValueError:
+        return Outcome(discarded="unprintable")
+    w = ctx.worker("dbg")
+    base = w.run(src)
+    alt = w.run(src, peephole_mask=PEEPHOLE_RULE_BITS[rule])
+    none = w.run(src, peephole_mask=31)
+    fail = None
+    if base.get("outcome") != "compile_error":
+        fail = same_behaviour(PROPERTY, base, alt, src, "all rules", "without " + rule, "program-differential")
+        if fail is None:
+            fail = same_behaviour(PROPERTY, base, none, src, "all rules", "no rules", "program-differential")
+    ran = base.get("outcome") in ("ok", "runtime_error")
+    return Outcome(key="prog:" + src, nontrivial=ran, labels=["program", "program:" + profile, "without:" + rule],
+                   failure=fail, sample="program (%s) with rule %s disabled: %s" % (profile, rule, src[:200]), runs=3)
+
+
+def program_strategy(hazards):  # noqa: C901
+    from ..lang import gen
+    cfgc = gen.Cfg(p_confuse=1, hazards=hazards)
+    progs = st.one_of(
+        gen.program(cfgc).map(lambda p: [("prog", "core"), p]),
+        gen.class_program(gen.Cfg(max_depth=3, p_confuse=0, hazards=hazards)).map(lambda p: [("prog", "class"), p]),
+        gen.exc_program(gen.Cfg(max_depth=3, p_confuse=0, exceptions=True, hazards=hazards)).map(
+            lambda p: [("prog", "exc"), p]),
+        gen.closure_program(gen.Cfg(max_depth=3, p_confuse=0, exceptions=True, hazards=hazards)).map(
+            lambda p: [("prog", "closure"), p]))
+    return st.tuples(progs, st.integers(0, 5)).map(lambda t: t[0] + [t[1]])
+
+
 def strategy(hazards):
+    # one case in five is a whole program run with one rule disabled (part d), the rest are sequences
+    return st.one_of(seq_strategy(hazards), seq_strategy(hazards), seq_strategy(hazards), seq_strategy(hazards),
+                     program_strategy(hazards))
+
+
+# ------------------------------------------------------------------------------------------- Hypothesis
+def seq_strategy(hazards):
     slot = st.integers(0, 3)
     label = st.integers(0, 4)
     argc = st.integers(0, 3)
